@@ -566,6 +566,23 @@ func (rw *rewriter) walk(n ast.Node, depth int, opts Options) error {
 					rw.replace(se.X.End(), x.Rparen+1, fmt.Sprintf("%s, %d)", path, sid))
 					visit(se.X, depth+1)
 					return
+				case typ == "Pool" && (method == "Get" && len(x.Args) == 0 || method == "Put" && len(x.Args) == 1):
+					sid := rw.site(x.Pos(), "pool")
+					path, ptr := fieldPath(selection)
+					amp := "&"
+					if ptr {
+						amp = ""
+					}
+					rw.insert(se.X.Pos(), fmt.Sprintf("%s.Pool%s(%s", alias, method, amp), depth)
+					if method == "Get" {
+						rw.replace(se.X.End(), x.Rparen+1, fmt.Sprintf("%s, %d)", path, sid))
+					} else {
+						rw.replace(se.X.End(), x.Lparen+1, path+", ")
+						rw.insert(x.Rparen, fmt.Sprintf(", %d", sid), -depth)
+						visit(x.Args[0], depth+1)
+					}
+					visit(se.X, depth+1)
+					return
 				case typ == "Once" && method == "Do" && len(x.Args) == 1:
 					rw.site(x.Pos(), "once")
 					path, ptr := fieldPath(selection)
